@@ -696,6 +696,33 @@ pub open spec fn frame_px(f: &AsepriteFile, cels: Seq<(u32, RawCel)>, k: int, cx
         }
     }
 }
+/// no cel of a visible layer among the first n: the canvas is still transparent black
+pub proof fn lemma_none_visible(f: &AsepriteFile, cels: Seq<(u32, RawCel)>, n: int, cx: int, cy: int)
+    requires 0 <= n <= cels.len(),
+        forall|j: int| 0 <= j < n ==> !spec_visible(f.layers.layers@, f.layers.parents@, (#[trigger] cels[j]).0 as int),
+    ensures frame_px(f, cels, n, cx, cy) == Rgba([0u8, 0u8, 0u8, 0u8]),
+    decreases n,
+{
+    if n > 0 {
+        lemma_none_visible(f, cels, n - 1, cx, cy);
+        assert(!spec_visible(f.layers.layers@, f.layers.parents@, cels[n - 1].0 as int));
+    }
+}
+/// C19: a frame in which exactly one cel (the k0-th) belongs to a visible layer shows exactly that cel over transparent black
+pub proof fn lemma_single_visible(f: &AsepriteFile, cels: Seq<(u32, RawCel)>, n: int, k0: int, cx: int, cy: int)
+    requires 0 <= k0 < n <= cels.len(),
+        forall|j: int| 0 <= j < n ==> (spec_visible(f.layers.layers@, f.layers.parents@, (#[trigger] cels[j]).0 as int) <==> j == k0),
+    ensures frame_px(f, cels, n, cx, cy) == cel_px(f, &cels[k0].1, Rgba([0u8, 0u8, 0u8, 0u8]), cx, cy),
+    decreases n,
+{
+    if n - 1 > k0 {
+        lemma_single_visible(f, cels, n - 1, k0, cx, cy);
+        assert(!spec_visible(f.layers.layers@, f.layers.parents@, cels[n - 1].0 as int));
+    } else {
+        lemma_none_visible(f, cels, k0, cx, cy);
+        assert(spec_visible(f.layers.layers@, f.layers.parents@, cels[k0].0 as int));
+    }
+}
 // @end
 
 // @section validate_shims
